@@ -48,7 +48,7 @@ func checkC13(r *Report) {
 	e := runEffect(p)
 	cmpTrusted(r)
 	pathTrusted(r)
-	r.Explain = "Structural clauses of 'canonicalisation yields one representative per isomorphism class'. C13.a PURE: every comparator used by Graph.Canon (orderedNodes.Less and the sort closures of Canon/renumber) is free of side effects, so duplicate detection and order cannot depend on which pairs the sort compared. C13.b COVER: each comparator over a graph type reads every field of both operands (Node: Version, Errors; NodeError: Req, Error; Edge: From, To, Requirement, Type; VersionKey; PackageKey; dep.Type/attr.Set), following delegation to nested comparators, so no component of the graph is left to input order. C13.c MUST-SORT: every success path of Canon passes the per-node error sort loop, the node sort and renumber, and every path of renumber reaches the edge sort. C13.d DUPE-ADJACENT: the duplicate scan that decides between the cheap and the breadth-first canonicalisation compares every adjacent pair of the sorted nodes. C13.e SORT-SELF: each sort.Slice callback indexes the slice being sorted. Not decided: correctness of the BFS relabelling for duplicate nodes."
+	r.Explain = "Structural clauses of 'canonicalisation yields one representative per isomorphism class'. C13.f SIGN-SYMMETRIC: a three-way comparator of package resolve whose non-constant results are all delegated comparisons returns +k as a constant exactly if it returns -k (a length or presence case handled for one operand only makes the node order, and with it the duplicate scan, depend on the input numbering). C13.a PURE: every comparator used by Graph.Canon (orderedNodes.Less and the sort closures of Canon/renumber) is free of side effects, so duplicate detection and order cannot depend on which pairs the sort compared. C13.b COVER: each comparator over a graph type reads every field of both operands (Node: Version, Errors; NodeError: Req, Error; Edge: From, To, Requirement, Type; VersionKey; PackageKey; dep.Type/attr.Set), following delegation to nested comparators, so no component of the graph is left to input order. C13.c MUST-SORT: every success path of Canon passes the per-node error sort loop, the node sort and renumber, and every path of renumber reaches the edge sort. C13.d DUPE-ADJACENT: the duplicate scan that decides between the cheap and the breadth-first canonicalisation compares every adjacent pair of the sorted nodes. C13.e SORT-SELF: each sort.Slice callback indexes the slice being sorted. Not decided: correctness of the BFS relabelling for duplicate nodes."
 	canon := p.lookupFn("(*resolve.Graph).Canon")
 	renum := p.lookupFn("(*resolve.Graph).renumber")
 	if canon == nil || renum == nil {
@@ -193,6 +193,9 @@ func checkC13(r *Report) {
 			}
 		}
 	}
+	mapOrderRule(r, p, "C13.f/MAP-ORDER", threeWayFns(p, "resolve"))
+	nSym := signSymmetryRule(r, p, "C13.f/SIGN-SYMMETRIC", threeWayFns(p, "resolve"))
+	r.floor("C13.f/SIGN-SYMMETRIC", "three-way comparators of package resolve", nSym, 3)
 }
 
 // noopStoreRule (deny-list): Store(IndexAddr(X,I), v) where v is what was just
